@@ -23,6 +23,9 @@
 //!
 //! Contract with the driver: every start node / `move_to` target / Bfs start / depth_first_search
 //! start / `Topo::with_initials` entry is drawn from `ids`, the abstract ids listed in `nodes=`.
+#[path = "c08/corners.rs"]
+mod corners;
+
 use crate::common::*;
 use crate::graphs::*;
 use crate::rng::Rng;
@@ -213,7 +216,7 @@ macro_rules! with_ty {
 
 /// the `case` line; the `enc=<name>` word is ignored by the driver (it answers `case <k>`)
 fn case_line(ctx: &mut Ctx, case: u64, enc: &str) {
-    ctx.raw(&format!("case {} enc={}", case, enc));
+    ctx.raw(&format!("case {} enc={} profile={}", case, enc, if cfg!(debug_assertions) { "debug" } else { "release" }));
 }
 
 /// `&EdgeFiltered<G, F>` over a graph reference `g` whose node weights are the abstract ids: F keeps a
@@ -460,7 +463,15 @@ fn case_matrix_directed(ctx: &mut Ctx, rng: &mut Rng, ag: &AG, case: u64) {
     walk_topo(ctx, rng, g, &ids, &abs, &conc);
 }
 
+/// share (in %) of the cases that go to the corner families of `c08/corners.rs` (wave 6)
+const CORNER_SHARE: u32 = 50;
+
 pub fn run(ctx: &mut Ctx, case: u64) {
+    // decided on a forked stream: a case that stays here is generated exactly as before wave 6
+    if Rng::for_case(ctx.seed, "C08-w6", case).chance(CORNER_SHARE) {
+        corners::run(ctx, case);
+        return;
+    }
     let mut rng = Rng::for_case(ctx.seed, "C08", case);
     let directed = rng.chance(60);
     let max_n = if ctx.tier_thorough { 12 } else { 9 };
